@@ -141,6 +141,39 @@ def native_heap(prop, tier, seed):
                            'axcut2backend::statements::substitute::Substitute::code_statement'])
 
 
+def _per_backend(kind, base_fn, backend, use_flag):
+    def f(prop, tier, seed):
+        if use_flag:
+            sums, cmd = native_run([kind, '--backend', backend, '--tier', tier, '--seed', str(seed)])
+            r = _native_result('native_%s/%s' % (kind, backend), sums, cmd, base_fn(prop, None, None, functions_only=True))
+        else:
+            sums, cmd = native_run([kind, '--tier', tier, '--seed', str(seed)])
+            r = _native_result('native_%s/%s' % (kind, backend), sums, cmd, base_fn(prop, None, None, functions_only=True), backend_filter=backend)
+        return r
+    return f
+
+
+def _functions_of(name):
+    # the function lists of the all-backend variants, reused for the per-backend ones
+    table = {
+        'moves': ['axcut2backend::statements::substitute::Substitute::code_statement', 'axcut2backend::substitution::{transpose,code_exchange,code_weakening_contraction}',
+                  'axcut2backend::parallel_moves::{parallel_moves,spanning_forest,spanning_tree,root_moves,tree_moves,delete_targets}',
+                  '<backend>::parallel_moves::{contains_spill_edge,store_temporary,restore_temporary}', '<backend>::code::mov', '<backend>::memory::{erase_block,share_block_n}'],
+        'prints': ['<backend>::code::{print_i64,caller_save_registers_info,save_caller_save_registers,restore_caller_save_registers}',
+                   '<backend>::into_routine::{into_*_routine,preamble,setup,move_arguments,cleanup}', 'axcut2backend::coder::{compile,translate,assemble}'],
+        'heap': ['<backend>::memory::{store,load,store_fields,load_fields,store_values,load_values,store_value,load_value,store_field,load_field,store_zeros,acquire_block,release_block,erase_block,share_block_n,skip_if_zero,if_zero_then_else}',
+                 'axcut2backend::statements::substitute::Substitute::code_statement'],
+    }
+    return lambda prop, tier, seed, functions_only=False: table[name]
+
+
+for _kind, _flag in (('moves', False), ('prints', False), ('heap', True)):
+    for _short, _be in (('x86', 'x86_64'), ('a64', 'aarch64'), ('rv', 'rv64')):
+        if _kind == 'prints' and _short == 'rv':
+            continue
+        REGISTRY['native_%s_%s' % (_kind, _short)] = _per_backend(_kind, _functions_of(_kind), _be, _flag)
+
+
 @register('native_linearize')
 def native_linearize(prop, tier, seed):
     sums, cmd = native_run(['linearize', '--tier', tier, '--seed', str(seed)])
@@ -482,14 +515,28 @@ def cbmc_io(prop, tier, seed):
         failed = re.findall(r'\[([^\]]+)\] line (\d+) (.*?): FAILURE', out)
         m = re.match(r'constant (-?\d+)', j[0])
         cex = None
-        if m:
-            v = int(m.group(1))
+        v = int(m.group(1)) if m else None
+        line_only = None
+        if v is None:
+            # symbolic job: ask CBMC for the counterexample trace and read the value (and the variant) from it
+            st2, out2, _ = _cbmc(base + j[1] + ['--trace'], j[2])
+            mv = re.findall(r'^\s*v=(-?\d+)', out2, re.M)
+            if mv:
+                v = int(mv[-1])
+            ml = re.findall(r'^\s*line=(TRUE|FALSE)', out2, re.M)
+            if ml:
+                line_only = (ml[-1] == 'TRUE')
+        if v is not None:
             ob = {}
+            wrong = False
             for line in (False, True):
                 b = native_print(v, line)
                 ob['println_i64' if line else 'print_i64'] = repr(b)
-            cex = {'input': 'value = %d' % v, 'what': 'real io.c compiled natively writes %s; expected %r' % (ob, str(v)),
-                   'replay_cmd': None}
+                if b is not None and b != (str(v) + ('\n' if line else '')).encode():
+                    wrong = True
+            if wrong:   # only a value that really fails when the real io.c is compiled and run counts as a counterexample
+                cex = {'input': 'value = %d' % v, 'what': 'real io.c compiled natively writes %s; expected %r' % (ob, str(v)),
+                       'replay_cmd': None}
         r.violations.append({'obligation': 'cbmc::io.c::print_contract', 'kind': 'cbmc', 'what': '; '.join('%s line %s: %s' % f for f in failed[:4]),
                              'input': j[0], 'verifier_output': '\n'.join(l for l in out.split('\n') if 'FAILURE' in l)[:3000],
                              'witness_class': j[0], 'counterexample': cex})
